@@ -69,9 +69,63 @@ Section Session.
       destruct Hi as (o2 & Ho2 & [[Hne ->]|[-> ->]]).
       + exists o2. split; [rewrite <- (O1 i Hne); exact Ho2|]. unfold unb_rel. splits; auto; intros; congruence.
       + assert (o2 = o1) by (unfold getop in Ho1; congruence). subst o2. exists o. split; [exact Hid|].
-        unfold unb_rel. cbn. splits; auto; try congruence. intros _. split; [exact P1|reflexivity].
+        unfold unb_rel. cbn. splits; auto; try congruence.
     - intros i Hi. unfold getop in *.
       change (lookup i (update id (fun o => o <| op_pubrel := None |>) (s_ops s1)) = None).
       apply lookup_none_not_in. rewrite keys_update, K1. apply lookup_none_not_in. exact Hi.
+  Qed.
+
+  Definition unb_all_rel (ids : list N) (i : N) (o o' : op) : Prop :=
+    (op_pid o = None -> op_pid o' = None) /\ (op_pubrel o = None -> op_pubrel o' = None) /\
+    (In i ids -> op_pid o' = None /\ op_pubrel o' = None) /\ (~ In i ids -> o' = o).
+
+  Lemma unbind_all_spec X ids : forall (s : state),
+    WFSx X s -> s_ppub s = [] -> s_pnon s = [] ->
+    let s' := fold_left unbind ids s in
+    WFSx X s' /\ but_oa s' = but_oa s /\ keys (s_ops s') = keys (s_ops s) /\ sumss (s_ops s') = sumss (s_ops s) /\
+    (forall i o', getop s' i = Some o' -> exists o, getop s i = Some o /\ unb_all_rel ids i o o') /\
+    (forall i, getop s i = None -> getop s' i = None).
+  Proof.
+    induction ids as [|a rest IH]; intros s HW Epp Epn; cbn [fold_left].
+    - cbv zeta. splits; auto. intros i o' Hi. exists o'. split; [exact Hi|]. unfold unb_all_rel. splits; auto. intros [].
+    - destruct (unbind_spec X s a HW Epp Epn) as (U1 & U2 & U3 & U4 & U5 & U6).
+      assert (Epp1 : s_ppub (unbind s a) = []) by (unfold but_oa in U2; tuple_eqs U2; congruence).
+      assert (Epn1 : s_pnon (unbind s a) = []) by (unfold but_oa in U2; tuple_eqs U2; congruence).
+      destruct (IH (unbind s a) U1 Epp1 Epn1) as (I1 & I2 & I3 & I4 & I5 & I6).
+      cbv zeta. splits; try congruence; auto.
+      intros i o' Hi. destruct (I5 i o' Hi) as (o1 & Ho1 & R1 & R2 & R3 & R4).
+      destruct (U5 i o1 Ho1) as (o & Ho & Q1 & Q2 & Q3 & Q4 & Q5). exists o. split; [exact Ho|].
+      unfold unb_all_rel. splits.
+      + intros Hp. apply R1. apply Q2. exact Hp.
+      + intros Hp. apply R2. apply Q3. exact Hp.
+      + intros [<-|Hin]; [|apply R3; exact Hin]. destruct (Q4 eq_refl) as (Q6 & Q7). split; [apply R1; exact Q6|apply R2; exact Q7].
+      + intros Hn. rewrite R4 by (intros Hx; apply Hn; right; exact Hx). apply Q1. intros ->. apply Hn. left. reflexivity.
+  Qed.
+
+  (* clearing the packet-id table commutes with unbinding *)
+  Definition but_aq2 (s : state) :=
+    (s_st s, s_pwc s, s_ops s, s_tmo s, s_uq s, s_rq s, s_hq s, s_cur s, s_enc s, s_ppub s, s_pnon s, s_pwco s,
+     s_settings s, s_next_id s, s_next_pid s, s_connected_before s, s_dec s, s_next_ping s, s_ping_to s, s_connack_to s,
+     s_ores s, s_ires s, s_ss_count s).
+
+  Lemma unbind_comm (a b : state) id :
+    but_aq2 b = but_aq2 a -> s_alloc b = [] ->
+    but_aq2 (unbind b id) = but_aq2 (unbind a id) /\ s_alloc (unbind b id) = [].
+  Proof.
+    intros H Hal. pose proof H as H'. unfold but_aq2 in H'. tuple_eqs H'.
+    unfold unbind. replace (s_ops b) with (s_ops a) by congruence.
+    destruct (lookup id (s_ops a)) as [o|]; [|split; assumption].
+    destruct (op_pid o) as [pid|].
+    - destruct (with_pid 0 (op_packet o)) as [p'|k|site]; unfold but_aq2; cbn; rewrite ?Hal; cbn;
+        (split; [repeat (apply pair_equal_spec; split); congruence|reflexivity]).
+    - unfold but_aq2; cbn. split; [repeat (apply pair_equal_spec; split); congruence|exact Hal].
+  Qed.
+
+  Lemma unbind_all_comm ids : forall (a b : state),
+    but_aq2 b = but_aq2 a -> s_alloc b = [] ->
+    but_aq2 (fold_left unbind ids b) = but_aq2 (fold_left unbind ids a) /\ s_alloc (fold_left unbind ids b) = [].
+  Proof.
+    induction ids as [|x rest IH]; intros a b H Hal; cbn [fold_left]; [split; assumption|].
+    destruct (unbind_comm a b x H Hal) as (H1 & H2). apply IH; assumption.
   Qed.
 End Session.
